@@ -1,3 +1,6 @@
--- This module serves as the root of the `PjVerif` library.
--- Import modules here that should be built as part of the library.
-import PjVerif.Basic
+import PjVerif.Model.Basic
+import PjVerif.Model.Calendar
+import PjVerif.Extracted.Sched
+import PjVerif.Spec.Calendar
+import PjVerif.Lemmas.Calendar
+import PjVerif.Props.C17
